@@ -370,6 +370,7 @@ def sourceSkeleton : List (String × List String) := [
     "[err != nil] return nil, errors.Wrap(..)",
     "chan recv",
     "case *objects.RpcError",
+    "[case *objects.RpcError] [m.serviceModeActivated] return nil, realErr",
     "[case *objects.RpcError] assert realErr.(*ErrResponseCode)",
     "[case *objects.RpcError] call tryToProcessErr",
     "[case *objects.RpcError] [err != nil] return nil, err",
